@@ -38,6 +38,7 @@ pub struct W {
     pub await_: u32,
     pub join: u32,
     pub join_park: u32,
+    pub send_park: u32,
     pub query: u32,
     pub yield_: u32,
     pub sleep: u32,
@@ -82,6 +83,7 @@ impl W {
             await_: 0,
             join: 0,
             join_park: 0,
+            send_park: 0,
             query: 0,
             yield_: 0,
             sleep: 0,
@@ -253,6 +255,8 @@ impl<'r> G<'r> {
             w.sleep,
             if has(self, &anyk) { w.fork } else { 0 },
             if has(self, &ownk) { w.join_park } else { 0 },
+            if has(self, &|k: &SK| k.hk == Hk::Sender) { w.send_park } else { 0 },
+            if has(self, &|k: &SK| k.hk == Hk::Fut) { 2 * w.send_park } else { 0 },
         ];
         if ws.iter().all(|x| *x == 0) {
             return false;
@@ -413,6 +417,20 @@ impl<'r> G<'r> {
                 let polls = self.rng.range(0, 2) as u8;
                 push(self, SK { hk: Hk::Join, a });
                 self.prog.clients[c].push(Op::JoinPark { slot, polls });
+            }
+            24 => {
+                let slot = pick(self, &|k: &SK| k.hk == Hk::Sender);
+                let a = self.sk[c][slot as usize].a;
+                let stream = self.prog.actors[a].entry.stream();
+                let script = self.script(w, true, stream);
+                let polls = self.rng.range(0, 2) as u8;
+                push(self, SK { hk: Hk::Fut, a });
+                self.prog.clients[c].push(Op::SendPark { slot, script, polls });
+            }
+            25 => {
+                let slot = pick(self, &|k: &SK| k.hk == Hk::Fut);
+                self.sk[c][slot as usize] = NONE;
+                self.prog.clients[c].push(Op::AwaitParked { slot });
             }
             _ => {
                 // fork: move 1-2 random handles to a new client which runs 1-3 ops
@@ -658,6 +676,7 @@ pub fn handles(rng: &mut Rng) -> Program {
     w.conv = 16;
     w.detach = 4;
     w.to_addr = 4;
+    w.send_park = 8;
     w.drop = 22;
     w.drop_all = 5;
     w.yield_ = 6;
@@ -681,6 +700,33 @@ pub fn handles(rng: &mut Rng) -> Program {
             g.prog.clients[c].push(Op::DropAll);
             // probe weak handles after the drop
             g.prog.clients[c].push(Op::Yield);
+        } else if g.rng.chance(1, 2) {
+            // a parked `Sender::send` future outlives every handle of this client and is completed afterwards
+            let base = g.slots_of(c, |k| matches!(k.hk, Hk::Addr | Hk::Owning));
+            if let Some(b) = base.first().copied() {
+                let a = g.sk[c][b as usize].a;
+                g.sk[c].push(SK { hk: Hk::Sender, a });
+                g.prog.clients[c].push(Op::ToSender { slot: b });
+                let sender = (g.sk[c].len() - 1) as u16;
+                let polls = g.rng.range(0, 2) as u8;
+                let script = g.script(&w, true, false);
+                g.sk[c].push(SK { hk: Hk::Fut, a });
+                g.prog.clients[c].push(Op::SendPark { slot: sender, script, polls });
+                let fut = (g.sk[c].len() - 1) as u16;
+                let mut held = g.slots_of(c, |k| k.hk != Hk::None && k.hk != Hk::Fut);
+                g.rng.shuffle(&mut held);
+                for s in held {
+                    g.sk[c][s as usize] = NONE;
+                    g.prog.clients[c].push(Op::Drop { slot: s });
+                }
+                if g.rng.chance(1, 2) {
+                    g.prog.clients[c].push(Op::Yield);
+                }
+                if g.rng.chance(3, 4) {
+                    g.sk[c][fut as usize] = NONE;
+                    g.prog.clients[c].push(Op::AwaitParked { slot: fut });
+                }
+            }
         }
     }
     g.prog
@@ -706,6 +752,8 @@ pub fn backpressure(rng: &mut Rng) -> Program {
     w.call = 8;
     w.ping = 4;
     w.force_send = 4;
+    w.send_park = 5;
+    w.drop = 3;
     w.conv = 10;
     w.downgrade = 3;
     w.upgrade = 3;
@@ -1011,6 +1059,11 @@ pub fn stream(rng: &mut Rng) -> Program {
     }
     if g.rng.chance(1, 5) {
         a.started = vec![SStep::Yield];
+    }
+    // a builder-configured handler timeout is not applied to stream-attached actors
+    if !always && a.entry.builder() && g.rng.chance(1, 3) {
+        a.timeout = Some(*g.rng.pick(&[1u64, 2, 5]));
+        a.fail_on_timeout = g.rng.chance(1, 3);
     }
     g.prog.actors.push(a);
     g.layout(nclients);
@@ -1915,6 +1968,7 @@ pub fn mix(rng: &mut Rng) -> Program {
     w.await_ = 5;
     w.join = 4;
     w.join_park = 2;
+    w.send_park = 3;
     w.query = 4;
     w.yield_ = 6;
     w.sleep = 6;
